@@ -3,11 +3,14 @@ pub mod c02;
 pub mod c03;
 pub mod c04;
 pub mod c05;
+pub mod c06;
 pub mod c07;
 pub mod c08;
 pub mod c09;
 pub mod c10;
 pub mod c13;
+pub mod c14;
+pub mod c15;
 pub mod c20;
 
 pub fn run(prop: &str, tier: &str) -> i32 {
@@ -17,11 +20,14 @@ pub fn run(prop: &str, tier: &str) -> i32 {
         "C03" => c03::run(tier),
         "C04" => c04::run(tier),
         "C05" => c05::run(tier),
+        "C06" => c06::run(tier),
         "C07" => c07::run(tier),
         "C08" => c08::run(tier),
         "C09" => c09::run(tier),
         "C10" => c10::run(tier),
         "C13" => c13::run(tier),
+        "C14" => c14::run(tier),
+        "C15" => c15::run(tier),
         "C20" => c20::run(tier),
         _ => {
             eprintln!("unknown property {}", prop);
